@@ -30,14 +30,14 @@ type Ctx struct {
 	typeIDs     map[string]int
 	sideFact    func(term string, t types.Type, alloc string) // receives typing facts of ground heap reads in specifications
 	sideSeen    map[string]bool
-	assuming    string    // reach condition while a callee postcondition is being assumed (else "")
+	assuming    string       // reach condition while a callee postcondition is being assumed (else "")
 	rawFact     func(string) // adds a fact to the generator's fact list
 	presSeen    map[string]bool
 	presRels    []presRel // assumed "preserved(heap)" relations between heap versions (for light-query instances)
 	entryTyped  map[string]bool
 	fieldOwner  map[string]string // heap key of a struct field -> path of the declaring package ("+path": exported field of an exported type)
-	mtypeKeys   map[string]bool // map heaps (key.value sorts) shared by maps of different Go types in this function
-	etypeSorts  map[string]bool // element sorts shared by slices of different element types in this function
+	mtypeKeys   map[string]bool   // map heaps (key.value sorts) shared by maps of different Go types in this function
+	etypeSorts  map[string]bool   // element sorts shared by slices of different element types in this function
 	qfAlt       map[string]string // define-fun with quantified body -> declare-fun (used by light queries)
 	errConsts   map[string]string
 	axioms      []string // global axioms (spec function axioms etc.)
@@ -49,8 +49,8 @@ type Ctx struct {
 }
 
 type specInst struct {
-	heaps []string // heap keys passed as leading params
-	res   types.Type
+	heaps    []string // heap keys passed as leading params
+	res      types.Type
 	recAxiom string // full definitional axiom of a recursive spec function (used only by confirmation queries)
 }
 
